@@ -13,7 +13,7 @@ use super::ws::{gen_ws, WsOpts, WsSpec};
 use crate::fixtures::FixtureDatabase;
 use serde::{Deserialize, Serialize};
 use serde_json::Value;
-use std::collections::BTreeMap;
+use std::collections::{BTreeMap, BTreeSet};
 use std::path::{Path, PathBuf};
 use std::sync::Arc;
 
@@ -628,8 +628,23 @@ fn check_cold_twin(res: &mut HRes, live: &Arc<FixtureDatabase>, log: &[(String, 
         cold.analyze_file(root.join(f), t);
     }
     let files = super::dbsnap::files_in_cache(&cold);
-    let sa = super::observe::snapshot_files(live, root, &files, false, true);
-    let sb = super::observe::snapshot_files(&cold, root, &files, false, true);
+    // undeclared-fixture findings reflect the instant of a file's analysis; the two scans (live and cold) analyse
+    // in orders of their own, so after a real scan they are compared only for documents analysed by the history
+    let mut sa = super::observe::snapshot_files(live, root, &files, false, !scan_first);
+    let mut sb = super::observe::snapshot_files(&cold, root, &files, false, !scan_first);
+    if scan_first {
+        let analysed: BTreeSet<&String> = log.iter().map(|(f, _)| f).collect();
+        for f in analysed {
+            let p = root.join(f);
+            let fmt = |db: &Arc<FixtureDatabase>| {
+                let mut un: Vec<String> = db.get_undeclared_fixtures(&p).iter().map(|u| format!("{}@{}:{}", u.name, u.line, u.start_char)).collect();
+                un.sort();
+                un.join(" ")
+            };
+            sa.entries.insert(format!("undeclared {}", f), fmt(live));
+            sb.entries.insert(format!("undeclared {}", f), fmt(&cold));
+        }
+    }
     let has_import_cycle = {
         let m = super::model::Model::new(spec);
         spec.files.iter().any(|f| {
